@@ -65,7 +65,7 @@ func main() {
 			"[all payload-size tuples that fit; all compressed-flag patterns under identity, unflagged under absent/gzip/deflate/snappy] x all 2^(n-1) cut-point sets " +
 			"x END_STREAM on {last DATA, empty DATA, trailers} x {client-to-server, server-to-client}. SAMPLED beyond that: all 1-cut sets (n<=400) and all 2-cut sets " +
 			"(n<=48 quick / n<=160 thorough) of a fixed list of compressed streams, one-byte dribble, PRNG message sequences (0..6 messages, sizes {0,1,5,100,70000}) " +
-			"with PRNG cut sets that always cut inside a prefix and at message boundaries or fixed-size frames, both directions interleaved, processor factories returning a processor for both / only the request / only the response direction, " +
+			"with PRNG cut sets that always cut inside a prefix and at message boundaries or fixed-size frames, both directions interleaved, processor factories returning a processor for both / only the request / only the response direction, header blocks in 5 field layouts (content-type first, after grpc-encoding, last, middle, PRNG order; a fixed fifth each), " +
 			"messages of 1.1-4.2 MB or compressed messages inflating to 4-17 MiB followed by small ones under fixed-size, aligned or PRNG framing (large-* batches), streams that are not gRPC (14 content types incl. gRPC-Web and near-miss strings; " +
 			"payloads incl. gRPC-Web/0x80 frames, base64 text, 0x01 frames, bogus lengths) plus content types of unsettled gRPC-ness (byte identity only), and a sample through the real " +
 			"h2 relay (h2.Config.Proxy between a harness h2 client on an in-memory pipe and a harness TLS h2 server). " +
